@@ -34,6 +34,15 @@ OpsN = z3.Function("OpsN", I, I, I, I)
 IsLive = z3.Function("IsLive", I, I, I, z3.BoolSort())
 
 
+def _venv(interp):
+    """environment of the function under verification (also when the current frame is an inlined helper)"""
+    for f_ in reversed(interp.frames):
+        if getattr(f_, "env", None) is not None:
+            return f_.env
+    from pyvc.interp import Env
+    return Env(module=interp.frame.module if interp.frame is not None else None)
+
+
 def _p(p):
     return [z3num(v) for v in p.vals]
 
@@ -324,7 +333,7 @@ def live(interp, p):     # noqa: F811  -- "live" of the dispatcher invariant, no
 def _walk_done_rely2(interp, q, item):
     """completion report received by the dispatcher (worker guarantee + queue contract) and the ground instances of
     the liveness definition / iterator protocol for this tile and its parent"""
-    env = interp.frame.env
+    env = _venv(interp)
     rq = env.lookup("ready_queue")
     self_ = env.lookup("self")
     A, D = self_.fields["_apex"], self_.fields["depth"]
